@@ -377,7 +377,7 @@ class TypeInfer:
             if bt[0] == 'inst':
                 ms = self.prog.lookup_method(bt[1], '__getitem__')
                 if ms:
-                    return self.return_type(ms[0])
+                    return self._refine_by_class_arg(self.return_type(ms[0]), e.slice, fn, env, mod)
             if bt[0] == 'cls':
                 meta = self.prog.metaclass_of(bt[1])
                 if meta:
@@ -588,7 +588,10 @@ class TypeInfer:
         if k == 'func':
             return self.return_type(ft[1])
         if k == 'bound':
-            return self.return_type(ft[1])
+            rt = self.return_type(ft[1])
+            if e.args:
+                rt = self._refine_by_class_arg(rt, e.args[0], fn, env, mod)
+            return rt
         if k == 'partial':
             return self.return_type(ft[1])
         if k == 'extmethod':
@@ -607,6 +610,14 @@ class TypeInfer:
                 return ft[2][1]
             return None
         return None
+
+    def _refine_by_class_arg(self, rt, arg: ast.expr, fn, env, mod):
+        """agent[T] / agent.get_component(T): a lookup keyed by a class yields an instance of that class."""
+        if rt and rt[0] == 'inst':
+            at = self.expr_type(arg, fn, env, mod)
+            if at and at[0] == 'cls' and self.prog.is_subclass(at[1], rt[1]):
+                return ('inst', at[1])
+        return rt
 
     def return_type(self, f: FuncInfo):
         q = f.qualname + ('#setter' if f.is_setter else '')
